@@ -350,7 +350,7 @@ where
         &mut self,
         name: &N,
     ) -> Result<(), PushNameError> {
-        let head = self.head.take();
+        let head = self.head;
         self.end_label();
         if self.len() + usize::from(name.compose_len()) > 254 {
             self.head = head;
